@@ -45,12 +45,12 @@ TEXT["C14"] = dict(
     technique="runtime round-trip monitors and stdlib differential over generated values and texts",
 )
 TEXT["C15"] = dict(
-    level="Online conservation monitoring: LimitReader and TruncatedWriter wrap a script-driven reader/writer that itself asserts, at every underlying call, that no more than the remaining limit is requested, while the caller side asserts pass-through of (k, err), prefix delivery, the (0, *LimitError{n}) regime and exact truncated forwarding. All histories over stream length 0..6 x limit 0..7 x 4/5 buffer sizes x 4/5 reader behaviours (and the writer analogue) are enumerated, plus deep random runs, limits up to 2^64-1, and trees of 2..4 LimitReaders over one source (chains, siblings sharing a limited parent, readers created late) checked level by level. Exploration.",
+    level="Online conservation monitoring: LimitReader and TruncatedWriter wrap a script-driven reader/writer that itself asserts, at every underlying call, that no more than the remaining limit is requested, while the caller side asserts pass-through of (k, err), prefix delivery, the (0, *LimitError{n}) regime and exact truncated forwarding. All histories over stream length 0..6 x limit 0..7 x 4/5 buffer sizes x 4/5 reader behaviours (and the writer analogue) are enumerated, plus deep random runs, limits up to 2^64-1, wrapped readers that break the contract with negative counts or grow after wrapping (Len), consumers that go through io.Copy / io.WriteString, payloads with multi-byte runes, and trees of 2..4 LimitReaders over one source (chains, siblings sharing a limited parent, readers created late) checked level by level. Exploration.",
     note="Wrapped readers stay inside the io.Reader contract.",
     technique="runtime conservation monitor (hooked wrapped reader/writer) over bounded-exhaustive fault scripts",
 )
 TEXT["C16"] = dict(
-    level="Two-run non-interference runtime monitoring: for each generated base URL the redaction is run once per credential of a 15-element pool and all outputs must coincide; field equality, input immutability and pointer identity for nil userinfo are asserted on every run; the same *url.URL is redacted again after its components and credentials changed; the error-rewriting function is observed on five kinds of error values; a race-detector stage shares one *url.URL between redacting, error-rewriting and reading goroutines (the input must never be modified, not even transiently). Exploration over generated URLs and schedules.",
+    level="Two-run non-interference runtime monitoring: for each generated base URL the redaction is run once per credential of a 15-element pool and all outputs must coincide; field equality, input immutability and pointer identity for nil userinfo are asserted on every run; the same *url.URL is redacted again after its components and credentials changed; the error-rewriting function is observed on five kinds of error values, nested *url.Error chains, chained use and error texts that differ from the URL; a race-detector stage shares one *url.URL between redacting, error-rewriting and reading goroutines (the input must never be modified, not even transiently). Exploration over generated URLs and schedules.",
     note="Trusts url.URL.String, reflect.DeepEqual and the race detector.",
     technique="runtime two-run (pairwise) comparison monitor + race detector on a shared input",
 )
@@ -84,13 +84,13 @@ TEXT["C09"] = dict(
 )
 
 TEXT["C10"] = dict(
-    level="Race detection plus linearizability checking of recorded histories: 15 000 (quick) / 300 000 (thorough) short concurrent histories on 13 cache configurations (count, size and element-size limits, with and without LRU and OnDelete) run under the Go race detector; each per-key history, with evictions observed through OnDelete as operations, is checked by porcupine against a sequential register model; every Get value is checksummed, every Stats snapshot is checked against the bounds and the hook's invariants are checked at quiescence; long unrecorded stress runs add race coverage. The evidence reports how many histories had overlapping operations on a key and how often each pair of operation kinds overlapped. Exploration: schedules are sampled, not enumerated.",
+    level="Race detection plus linearizability checking of recorded histories: 15 000 (quick) / 300 000 (thorough) short concurrent histories on 13 cache configurations (count, size and element-size limits, with and without LRU and OnDelete) run under the Go race detector; each per-key history, with evictions observed through OnDelete as operations, is checked by porcupine against a sequential register model; every Get value is checksummed, every Stats snapshot is checked against the bounds and the hook's invariants are checked at quiescence; long unrecorded stress runs add race coverage, incl. caches of thousands of uniform elements on which every concurrent Stats snapshot must satisfy Size == 8*Count. The evidence reports how many histories had overlapping operations on a key and how often each pair of operation kinds overlapped. Exploration: schedules are sampled, not enumerated.",
     note="Trusts porcupine v1.3.0, the Go race detector's happens-before analysis for the accesses a run performs, and the 40-line model. A porcupine timeout (20 s) is inconclusive, never a verdict.",
     technique="Go race detector + offline linearizability checking (porcupine) of stamped client-boundary histories, with eviction events from a callback recorder",
 )
 
 TEXT["C17"] = dict(
-    level="Stress monitoring under the race detector plus exact quiescence monitoring in synctest bubbles. Stress: 20 000 / 600 000 barrier-started rounds of concurrent Get calls (count and pointer-identity oracles; the evidence reports how many rounds had two or more callers inside one construction window) and semaphore loops with a live-holder counter (the evidence reports that the counter reached the capacity). Bubbles: every arrival order of up to 6/9 callers over up to 3 keys x every subset of parked constructions, and every script of up to 4/6 steps over 10 semaphore actions for capacities 0..3 (one bubble per scenario, run on all cores), each judged after synctest.Wait() so that 'blocked' and 'returned' are facts, not timeouts. Exploration over schedules.",
+    level="Stress monitoring under the race detector plus exact quiescence monitoring in synctest bubbles. Stress: 20 000 / 600 000 barrier-started rounds of concurrent Get calls (count and pointer-identity oracles; the evidence reports how many rounds had two or more callers inside one construction window) and semaphore loops with a live-holder counter (the evidence reports that the counter reached the capacity). Bubbles: every arrival order of up to 6/9 callers over up to 3 keys x every subset of parked constructions, and every script of up to 4/6 steps over 10 semaphore actions for capacities 0..3 (one bubble per scenario, run on all cores), plus wide scenarios with up to 1100 keys (one key under construction while the others are built, re-entrant construction, all constructions held at once) and keys whose printed form is unstable, each judged after synctest.Wait() so that 'blocked' and 'returned' are facts, not timeouts. Exploration over schedules.",
     note="Trusts testing/synctest of Go 1.24.2 and the race detector. A goroutine blocked on something the bubble cannot see (e.g. a mutex) is caught by the bounded-progress watchdog and a solo re-run.",
     technique="race-detector stress with counting monitors + synctest-bubble scenario enumeration judged at quiescence",
 )
